@@ -22,7 +22,7 @@ RULES["C20"] = (
     "operation sequences over insert(key in {0,1,2})/pull/peek/extract(any key ever issued) on the real "
     "PriorityQueue and IndexedPriorityQueue, every result compared with a BTreeMap<(key, insertion seq)> "
     "reference: (a) all sequences of the stated length (exhaustive), (b) seeded random sequences biased "
-    "towards slot recycling; a case is non-trivial when it broke a tie between equal keys or extracted "
+    "towards slot recycling, one in four made of waves (fill to 3-2500 live entries, drain completely, refill, extract through keys of earlier waves); a case is non-trivial when it broke a tie between equal keys or extracted "
     "through a stale key; distinct = distinct operation sequences (hash)")
 PLAN["C20"] = {
     "quick": [job("native", "exhaustive", 16, 300), job("native", "random", 16, 300)],
@@ -53,9 +53,10 @@ COMMON_ASSUMPTIONS = [
 
 LEVEL["C01"] = "exploration"
 RULES["C01"] = ("generated timer and DAG benches x driver command sequences, each run on ST, schedule-controlled ST and MT executors; "
-                "times after every call, handler times and pending deadlines compared with a sequential reference interpreter; "
+                "times after every call, handler times and pending deadlines compared with a sequential reference interpreter; part threads: the concurrent scheduling workload of C08 (1-4 threads submitting requests around the "
+                "advancing time through every scheduler entry point while the main thread steps): time never decreases, every accepted request fires at its deadline; "
                 "non-trivial = an execution in which simulation time moved and handlers ran; distinct = (bench, handler order, pick sequence) hash")
-sim_plan("C01", ["timer", "dag"], miri_parts=["timer"])
+sim_plan("C01", ["timer", "dag", "threads"], miri_parts=["timer"])
 LEVEL["C03"] = "exploration"
 RULES["C03"] = ("generated DAG benches (plain/map/filter_map connections to models and sinks, capacities 1-3 and 1-16, messages from models, scheduler, "
                 "process_event/process_query/EventSource/QuerySource); per-command multiset of (recipient, uid) handler invocations and sink contents compared with the "
@@ -94,7 +95,7 @@ RULES["C09"] = ("timer benches with keyed/auto-keyed one-shot and periodic actio
                 "events (generator rules R1-R3 make the outcome schedule independent); handler invocations compared with the reference interpreter; non-trivial = at least one cancellation issued")
 sim_plan("C09", ["timer"], miri_parts=["timer"])
 LEVEL["C10"] = "exploration"
-RULES["C10"] = ("timer benches with periodic actions (periods down to 1 ns, commensurable), random partitions of the horizon into step/step_until; occurrence times compared with the "
+RULES["C10"] = ("timer benches with periodic actions (periods down to 1 ns, commensurable; other actions scheduled, cancelled and bursts of same-time actions around them), random partitions of the horizon into step/step_until; occurrence times compared with the "
                 "reference interpreter; non-trivial = bench containing a periodic action whose handlers ran")
 sim_plan("C10", ["timer"])
 LEVEL["C16"] = "exploration"
@@ -108,8 +109,11 @@ LEVEL["C18"] = "exploration"
 RULES["C18"] = ("timer benches with a recording scripted clock; sequence of Clock::synchronize times per call compared with the reference interpreter; each synchronize(t) stamped after all "
                 "handlers of earlier times and before any handler of t; initial synchronize before any init; part faults: scripted OutOfSync(lag) answers at random synchronisation indices x tolerances "
                 "{none, 0, 1us, 2s, 10s}: a lag above tolerance must fail the enclosing call with OutOfSync(lag) and stop all model code, lags within tolerance or without tolerance are ignored; "
-                "non-trivial = more than one synchronisation (timer) / a lag was answered (faults)")
-sim_plan("C18", ["timer", "faults"])
+                "part gated: a clock that blocks inside synchronize(t) while an injector thread submits requests through a Scheduler handle (deadlines at -2..+3 ns of Scheduler::time(), relative delays 0..3 ns): "
+                "synchronize times never decrease, exactly one synchronize per time moved to, handlers read the time of the last synchronize before them, accepted requests fire at their deadline; "
+                "non-trivial = more than one synchronisation (timer) / a lag was answered (faults) / a request was made while blocked in synchronize (gated)")
+sim_plan("C18", ["timer", "faults", "gated"])
+PLAN["C18"]["thorough"].append(miri("gated", 2, 4, 3000))
 for _p in ("C01", "C03", "C04", "C05", "C06", "C07", "C09", "C10", "C16", "C18"):
     PLAN[_p]["assumptions"] = COMMON_ASSUMPTIONS
 
